@@ -1,5 +1,6 @@
 import Uflow.Lemmas.HcSysPSend
 import Uflow.Lemmas.HcInvLoops
+import Uflow.Lemmas.HcSysCodec
 
 /-!
 C01Hc, part 4: what `flush` puts on the wire.
@@ -523,6 +524,17 @@ theorem emitSyncFrame_spec (s s' : State F) (out : List (List Nat)) (st : Stage)
          | exact absurd hb List.not_mem_nil
          | (rw [List.mem_singleton] at hb; exact ⟨_, _, hb⟩))
 
+theorem emitSyncFrame_queues (s s' : State F) (out : List (List Nat)) (st : Stage)
+    (h : emitSyncFrame s = .ok (s', out, st)) : s'.resend = s.resend ∧ s'.pending = s.pending := by
+  unfold emitSyncFrame at h
+  simp only [] at h
+  repeat' split at h
+  all_goals first
+    | (simp only [reduceCtorEq] at h; done)
+    | (simp only [Except.ok.injEq, Prod.mk.injEq] at h
+       obtain ⟨rfl, _, _⟩ := h
+       exact ⟨rfl, rfl⟩)
+
 /-! ### `flush` -/
 
 /-- **What `flush` emits.** From a state whose packet sender satisfies `AInv pend`: the sender moves
@@ -587,6 +599,108 @@ theorem flush_spec {pend : List Pending} (s s' : State F) (out : List (List Nat)
             · exact hw2 b hb
           · obtain ⟨nf, np, rfl⟩ := y3 b hb
             exact .sync nf np rfl
+
+/-- The packet id of the sync frame `emit_sync_frame` emits, if it carries one, is the sender's
+`next_id`, and it is only sent while the resend queue and the pending queue are empty. -/
+theorem emitSyncFrame_pid (s s' : State F) (out : List (List Nat)) (st : Stage)
+    (h : emitSyncFrame s = .ok (s', out, st)) :
+    ∀ b ∈ out, ∃ nf np, b = encode (.sync nf np) ∧
+      ∀ id, np = some id → id = s.ps.nextId ∧ s.resend.size = 0 ∧ s.pending.length = 0 := by
+  unfold emitSyncFrame at h
+  simp only [] at h
+  repeat' split at h
+  all_goals first
+    | (simp only [reduceCtorEq] at h; done)
+    | (simp only [Except.ok.injEq, Prod.mk.injEq] at h
+       obtain ⟨rfl, rfl, _⟩ := h
+       intro b hb
+       first
+         | exact absurd hb List.not_mem_nil
+         | (rw [List.mem_singleton] at hb
+            refine ⟨_, _, hb, ?_⟩
+            intro id hid
+            first
+              | (cases hid; done)
+              | (have hc : s.ps.nextId ≠ s.ps.baseId ∧ s.resend.size = 0 ∧ s.pending.length = 0 := by
+                   assumption
+                 simp only [Option.some.injEq] at hid
+                 exact ⟨hid.symm, hc.2.1, hc.2.2⟩)))
+
+/-- **The sync frames of a `flush`.** If a frame `flush` emits parses as a sync frame carrying a
+packet id, that id is the `next_id` of the packet sender after the `flush` (no `PSend.emit` follows
+`emit_sync_frame`), and the resend queue and the pending queue are empty after the `flush`. -/
+theorem flush_sync_spec {pend : List Pending} (s s' : State F) (out : List (List Nat))
+    (h : AInv pend s.ps) (hf : flush s = .ok (s', out)) :
+    ∀ b ∈ out, ∀ nf id, decode b = some (.sync nf (some id)) →
+      id = s'.ps.nextId ∧ s'.resend.size = 0 ∧ s'.pending.length = 0 := by
+  have notAck : ∀ fb pb b, AckShape fb pb b → ∀ nf id, decode b ≠ some (.sync nf (some id)) := by
+    intro fb pb b ⟨gs, hb⟩ nf id hd
+    rw [hb] at hd
+    obtain ⟨_, _, hg⟩ := Codec.decode_encode_ack fb pb gs _ hd
+    cases hg
+  unfold flush at hf
+  have hout1 := emitAckFrames_out s
+  obtain ⟨k1, k2, k3⟩ := emitAckFrames_keep s
+  generalize emitAckFrames s = r at hf hout1 k1 k2 k3
+  obtain ⟨s1, out1, st1⟩ := r
+  simp only [] at hf hout1 k1 k2 k3
+  by_cases hst : st1 = .stop
+  · rw [if_pos hst] at hf
+    simp only [Except.ok.injEq, Prod.mk.injEq] at hf
+    obtain ⟨rfl, rfl⟩ := hf
+    intro b hb nf id hd
+    exact absurd hd (notAck _ _ b (hout1 b hb) nf id)
+  · rw [if_neg hst] at hf
+    cases hd : emitDataFrames s1 with
+    | error t => rw [hd] at hf; cases hf
+    | ok v =>
+      obtain ⟨s2, out2, st2⟩ := v
+      rw [hd] at hf
+      simp only [] at hf
+      obtain ⟨l, hem, ha2, ho2, kk⟩ := emitDataFrames_ge s1 s2 out2 st2 (by rw [k1]; exact h) hd
+      have notData : ∀ b ∈ out2, ∀ nf id, decode b ≠ some (.sync nf (some id)) := by
+        intro b hb nf id hdec
+        obtain ⟨i, n, dgs, h1, _, _⟩ := ho2 b hb
+        rw [h1] at hdec
+        obtain ⟨_, _, _, hg⟩ := Codec.decode_encode_data_kind i n dgs _ hdec
+        cases hg
+      by_cases hst2 : st2 = .stop
+      · rw [if_pos hst2] at hf
+        simp only [Except.ok.injEq, Prod.mk.injEq] at hf
+        obtain ⟨rfl, rfl⟩ := hf
+        intro b hb nf id hdec
+        rcases List.mem_append.mp hb with hb | hb
+        · exact absurd hdec (notAck _ _ b (hout1 b hb) nf id)
+        · exact absurd hdec (notData b hb nf id)
+      · rw [if_neg hst2] at hf
+        cases hsy : emitSyncFrame s2 with
+        | error t => rw [hsy] at hf; cases hf
+        | ok v3 =>
+          obtain ⟨s3, out3, st3⟩ := v3
+          rw [hsy] at hf
+          simp only [Except.ok.injEq, Prod.mk.injEq] at hf
+          obtain ⟨rfl, rfl⟩ := hf
+          obtain ⟨y1, y2, y3⟩ := emitSyncFrame_spec s2 _ out3 st3 hsy
+          have y4 := emitSyncFrame_pid s2 _ out3 st3 hsy
+          have y5 := emitSyncFrame_queues s2 _ out3 st3 hsy
+          intro b hb nf id hdec
+          rcases List.mem_append.mp hb with hb | hb
+          · rcases List.mem_append.mp hb with hb | hb
+            · exact absurd hdec (notAck _ _ b (hout1 b hb) nf id)
+            · exact absurd hdec (notData b hb nf id)
+          · obtain ⟨nf0, np0, hb0, hpid⟩ := y4 b hb
+            rw [hb0] at hdec
+            obtain ⟨nf', hg⟩ := Codec.decode_encode_sync_pid nf0 np0 _ hdec
+            simp only [Frame.sync.injEq] at hg
+            obtain ⟨-, hnp⟩ := hg
+            cases np0 with
+            | none => cases hnp
+            | some x =>
+              simp only [Option.map_some, Option.some.injEq] at hnp
+              obtain ⟨e1, e2, e3⟩ := hpid x rfl
+              have hlt : s2.ps.nextId < 2^20 := ha2.nid
+              refine ⟨?_, by rw [y5.1]; exact e2, by rw [y5.2]; exact e3⟩
+              rw [y1, hnp, e1, Nat.mod_eq_of_lt (by omega)]
 
 /-- The packets of a sender satisfying `AInv` slice into fragments of at most 1448 bytes. -/
 theorem ainv_psOk {pend : List Pending} {ps : PSend.State} (h : AInv pend ps) : Credit.PsOk ps := by
